@@ -101,6 +101,47 @@ def merge_worlds(ws) -> World:
     return World({k: frozenset().union(*[w.d[k] for w in ws]) for k in keys})
 
 
+def _importance(k: str, vals) -> int:
+    if any(v in (OPT, INF, OTHER) for v in vals):
+        return 3                      # solver verdict classes: what the rules are about
+    if any(isinstance(v, str) and v[:1] in ("'", '"') for v in vals):
+        return 2                      # string constants (status names)
+    if k.startswith("?"):
+        return 0                      # control-dependence facts
+    return 1
+
+
+def reduce_worlds(ws):
+    """Too many worlds: forget the least important distinguishing key (control-dependence facts first, then truthiness /
+    none-ness, then constants; verdict classes last) until few enough remain - instead of collapsing everything into one
+    world, which would destroy the correlation between a status value and the verdict it was derived from."""
+    ws = set(ws)
+    guard = 0
+    while len(ws) > MAX_WORLDS and guard < 200:
+        guard += 1
+        vals: Dict[str, set] = {}
+        for w in ws:
+            for k, v in w.d.items():
+                vals.setdefault(k, set()).add(v)
+        cands = []
+        for k, vs in vals.items():
+            distinct = len(vs) + (1 if any(k not in w.d for w in ws) else 0)
+            if distinct < 2:
+                continue
+            imp = min(_importance(k, v) for v in vs)
+            cands.append((imp, -distinct, k))
+        if not cands:
+            break
+        cands.sort()
+        imp, _, key = cands[0]
+        if imp >= 3:
+            break
+        ws = {World({k: v for k, v in w.d.items() if k != key}) for w in ws}
+    if len(ws) > MAX_WORLDS:
+        return frozenset([merge_worlds(ws)])
+    return frozenset(ws)
+
+
 class WorldFlow(Flow):
     """Generic engine; rule modules subclass and add observation hooks."""
 
@@ -118,7 +159,7 @@ class WorldFlow(Flow):
     def join(self, a, b):
         u = a | b
         if len(u) > MAX_WORLDS:
-            return frozenset([merge_worlds(u)])
+            return reduce_worlds(u)
         return u
 
     # ------------------------------------------------------- expressions
